@@ -5,8 +5,8 @@
 (* the CONCRETE code points (arbitrary printable text, values up to 40     *)
 (* characters, neighbour fields that themselves hold accepted multi-line   *)
 (* values).                                                                *)
-(* A trace is [init |-> paragraph, events |-> <<event>>]; a paragraph is a *)
-(* sequence of [k, v] (code point sequences); an event is                  *)
+(* A trace is [init |-> paragraph, deep |-> BOOLEAN, events |-> <<event>>];*)
+(* a paragraph is a sequence of [k, v] (code point sequences); an event is *)
 (*   [pos, v, acc, res, items, rb]:                                        *)
 (*   pos    index of the field assigned to, v the value given,             *)
 (*   acc    TRUE iff the assignment returned normally, res "ok" /          *)
@@ -31,8 +31,9 @@
 (* Deb822Value is evaluated on the concrete dump and compared with all six *)
 (* observed read-backs, the stored value with v and Validate with the      *)
 (* statement layer: a difference prints <<"REJECT", tid, l, "model">>      *)
-(* (reported as spec drift).  With TRACE_DIAG = "1" the first unexplained  *)
-(* event prints <<"REJECT", tid, l, reasons>>.                             *)
+(* (reported as spec drift; only for traces with deep = TRUE -- the reader *)
+(* model costs four parses per event).  With TRACE_DIAG = "1" the first    *)
+(* unexplained event prints <<"REJECT", tid, l, reasons>>.                 *)
 (***************************************************************************)
 EXTENDS Deb822Value, IOUtils, TLCExt
 
@@ -84,7 +85,7 @@ TStep == /\ l <= Len(Tr.events)
          /\ LET e == Tr.events[l] IN
               /\ e.pos \in 1..Len(para)
               /\ Explained(e)
-              /\ ((~ModelAgrees(e) \/ ~ValidatorAgrees(e)) => PrintT(<<"REJECT", tid, l, "model">>))
+              /\ ((Tr.deep /\ (~ModelAgrees(e) \/ ~ValidatorAgrees(e))) => PrintT(<<"REJECT", tid, l, "model">>))
               /\ para' = After(e)
               /\ res' = e.res
          /\ l' = l + 1 /\ UNCHANGED <<tid, inp, out>>
